@@ -49,6 +49,7 @@ RTT = 0.25                   # virtual seconds between a request and the server'
 # measured from the moment the failed attempt is reported (RETRY_PENDING event)
 DOC_RETRY = {'send_failure': 10, 'silence': 10, 'not_exists': 600}
 ZERO = TrackingFlag(0)
+ALL_REASONS = [r.name for r in CloseReason]     # UNKNOWN, CONNECT_FAILED, REQUESTED, READ_ERROR, WRITE_ERROR, TIMEOUT, EOF
 SETTINGS = Settings(credentials=CredentialsSettings(username='me', password='pw'))
 
 
@@ -384,17 +385,17 @@ class Env:
             if units > max_units:
                 raise symex.BoundHit('fine stepping bound')
 
-    def disconnect(self, on_start=lambda: None):
+    def disconnect(self, reason=CloseReason.EOF, on_start=lambda: None):
         """the server connection closes: the real Network.on_state_changed emits the
         ConnectionStateChangedEvent (in a task of its own, queued behind what is already scheduled);
-        sends fail until the handlers are through; then the client is connected again (new
-        connection epoch)."""
+        with the close reason it was given, as Connection.set_state does); sends fail until the
+        handlers are through; then the client is connected again (new connection epoch)."""
         loop = self.loop
         self.connected = False
 
         async def closed():
             on_start()
-            await self.net.on_state_changed(ConnectionState.CLOSED, self.conn, close_reason=CloseReason.EOF)
+            await self.net.on_state_changed(ConnectionState.CLOSED, self.conn, close_reason=reason)
         task = loop.spawn(closed())
         n = 0
         while not task.done() and n < 200:
@@ -475,6 +476,17 @@ class Scenario:
         self.ref = Ref(nusers)
         self.tags = [set() for _ in range(nusers)]
         self.closed = []          # (epoch, user, transitions asked for) of closed connections
+        self.deferred = []        # obligations about values captured earlier, decided at the end of the path
+
+    def ck(self, cond, label, **kw):
+        """c.check; a condition that folded to a constant is handed over as a plain bool, so that a
+        refutation is recorded without cutting the path (later obligations are still looked at)"""
+        if isinstance(cond, SBool):
+            if z3.is_true(cond.e):
+                cond = True
+            elif z3.is_false(cond.e):
+                cond = False
+        return self.c.check(cond, label, **kw)
 
     # ---- signatures (finite discriminants of the schedule; never part of an obligation) ----
     def sig(self, u, *more):
@@ -526,33 +538,39 @@ class Scenario:
             raise
         except Exception as e:  # noqa
             exc = e
-        c.check(exc is None, 'call_accepted', sig=self.sig(u), info=repr(exc))
+        self.ck(exc is None, 'call_accepted', sig=self.sig(u), info=repr(exc))
         self.ref.call(op, u, flag)
 
-    def disconnect(self, i):
+    def disconnect(self, i, reasons=('EOF',)):
+        """the server connection closes for one of `reasons` (names of CloseReason members; a
+        discriminant when there are several) and the client reconnects"""
         c, env, um = self.c, self.env, self.um
-        c.note('event', i, 'd', 't=%s' % env.loop.time(), 'step', env.loop.steps)
-        ok = env.disconnect(lambda: c.note('close handlers start', [self.situation(u, 'disconnect') for u in range(self.n)]))
-        allsig = self.sig(max(range(self.n), key=lambda u: len(self.tags[u])))
-        c.check(ok, 'disconnect_handled', sig=allsig, info='the close handlers did not finish in the instant of the close')
+        rname = reasons[0] if len(reasons) == 1 else c.pick(list(reasons), f'close_reason{i}')
+        reason = CloseReason[rname]
+        c.note('event', i, 'd', rname, 't=%s' % env.loop.time(), 'step', env.loop.steps)
+        ok = env.disconnect(reason, lambda: c.note('close handlers start', [self.situation(u, 'disconnect') for u in range(self.n)]))
+        allsig = self.sig(max(range(self.n), key=lambda u: len(self.tags[u])), rname)
+        self.ck(ok, 'disconnect_handled', sig=allsig, info='the close handlers did not finish in the instant of the close')
+        c.reach('closed_' + rname)
         for u in range(self.n):
             self.closed.append((env.epoch - 1, u, self.ref.count(u)))
         self.ref.disconnect()
         c.reach('disconnected')
         for u in range(self.n):
             name = USERS[u]
-            c.check(um.get_tracking_state(name) == TrackingState.UNTRACKED, 'dropped_on_disconnect', sig=self.sig(u),
+            self.ck(um.get_tracking_state(name) == TrackingState.UNTRACKED, 'dropped_on_disconnect', sig=self.sig(u, rname),
                     info={'user': u, 'state': um.get_tracking_state(name).value})
-            c.check(is_empty(um.get_tracking_flags(name)), 'dropped_on_disconnect', sig=self.sig(u), info={'user': u, 'flags': 'kept'})
+            # (decided at the end of the path: a refuted symbolic obligation would cut the path short of the tail)
+            self.deferred.append((is_empty(um.get_tracking_flags(name)), 'dropped_on_disconnect', self.sig(u, rname),
+                                  {'user': u, 'flags': 'kept'}))
 
     # ---- obligations ------------------------------------------------------------
     def check_not_ahead(self, where):
         """never otherwise / never before its cause: the server has not seen more transitions than were asked for"""
-        c = self.c
         for u in range(self.n):
             seq = collapse(self.frames(u, self.env.epoch))
-            c.check(alternates(seq), 'requests_alternate', sig=self.sig(u), info={'user': u, 'seen': seq, 'at': where})
-            c.check(self.ref.count(u) >= len(seq) if seq else True, 'no_request_without_transition', sig=self.sig(u),
+            self.ck(alternates(seq), 'requests_alternate', sig=self.sig(u), info={'user': u, 'seen': seq, 'at': where})
+            self.ck(self.ref.count(u) >= len(seq) if seq else True, 'no_request_without_transition', sig=self.sig(u),
                     info={'user': u, 'seen': seq, 'at': where})
 
     def confirmed(self, u):
@@ -563,18 +581,18 @@ class Scenario:
         return self.env.failed(frs[-1]) is None
 
     def check_state(self, where):
-        c, env, um = self.c, self.env, self.um
+        env, um = self.env, self.um
         for u in range(self.n):
             name = USERS[u]
-            c.check(flag_eq(um.get_tracking_flags(name), self.ref.reasons[u]), 'flags_mirror_calls', sig=self.sig(u),
+            self.ck(flag_eq(um.get_tracking_flags(name), self.ref.reasons[u]), 'flags_mirror_calls', sig=self.sig(u),
                     info={'user': u, 'at': where})
             want = And(Not(is_empty(self.ref.reasons[u])), self.confirmed(u))
             got = um.get_tracking_state(name) == TrackingState.TRACKED
-            c.check(want if got else Not(want), 'tracked_iff_reason_and_confirmed', sig=self.sig(u),
+            self.ck(want if got else Not(want), 'tracked_iff_reason_and_confirmed', sig=self.sig(u),
                     info={'user': u, 'at': where, 'state': um.get_tracking_state(name).value})
             evs = [e for e in env.events if e['user'] == name and e['epoch'] == env.epoch]
             rep = evs[-1]['state'] == TrackingState.TRACKED if evs else False
-            c.check(want if rep else Not(want), 'reported_tracked_iff_reason_and_confirmed', sig=self.sig(u),
+            self.ck(want if rep else Not(want), 'reported_tracked_iff_reason_and_confirmed', sig=self.sig(u),
                     info={'user': u, 'at': where, 'last_event': evs[-1]['state'].value if evs else None})
 
     def check_retries(self, u, epoch):
@@ -584,12 +602,12 @@ class Scenario:
             if prev['kind'] != 'A' or nxt['kind'] != 'A':
                 continue
             kind = env.failed(prev)
-            c.check(kind is not None, 'retry_only_after_failed_attempt', sig=self.sig(u), info={'user': u})
+            self.ck(kind is not None, 'retry_only_after_failed_attempt', sig=self.sig(u), info={'user': u})
             if kind is None:
                 continue
             rep = [e for e in env.events if e['user'] == USERS[u] and e['state'] == TrackingState.RETRY_PENDING
                    and prev['n'] < e['n'] < nxt['n']]
-            c.check(bool(rep) and close(nxt['t'], rep[0]['t'] + DOC_RETRY[kind]), 'retry_after_documented_delay',
+            self.ck(bool(rep) and close(nxt['t'], rep[0]['t'] + DOC_RETRY[kind]), 'retry_after_documented_delay',
                     sig=self.sig(u, kind), info={'user': u, 'attempt_at': prev['t'], 'reported_at': rep[0]['t'] if rep else None,
                                                  'retry_at': nxt['t']})
             c.reach('retried_' + kind)
@@ -598,38 +616,40 @@ class Scenario:
         c, env = self.c, self.env
         # ---- once activity settles ---------------------------------------------
         ok = env.settle()
-        c.check(ok, 'activity_settles', info='an attempt is still waiting for the server after 8 timers')
+        self.ck(ok, 'activity_settles', info='an attempt is still waiting for the server after 8 timers')
         self.check_not_ahead('settled')
         self.check_state('settled')
         c.reach('settled')
         steps = env.loop.steps
         ok = env.run_all()
-        c.check(ok, 'activity_settles', info='timers keep being scheduled')
+        self.ck(ok, 'activity_settles', info='timers keep being scheduled')
         if env.loop.steps != steps:
             self.check_state('end')
         for u in range(self.n):
             frs = self.frames(u, env.epoch)
             seq = collapse(frs)
-            c.check(alternates(seq), 'requests_alternate', sig=self.sig(u), info={'user': u, 'seen': seq, 'at': 'end'})
+            self.ck(alternates(seq), 'requests_alternate', sig=self.sig(u), info={'user': u, 'seen': seq, 'at': 'end'})
             # every transition reached the server (nothing lost), and nothing else did
-            c.check(self.ref.count(u) == len(seq), 'requests_mirror_transitions', sig=self.sig(u),
+            self.ck(self.ref.count(u) == len(seq), 'requests_mirror_transitions', sig=self.sig(u),
                     info={'user': u, 'seen': [(fr['kind'], fr['t'], fr['beh']) for fr in frs]})
             self.check_retries(u, env.epoch)
             # nothing is scheduled any more: a failed last attempt may only be left alone when no reason remains
             if frs and frs[-1]['kind'] == 'A':
                 kind = env.failed(frs[-1])
-                c.check(is_empty(self.ref.reasons[u]) if kind else True, 'retried_while_reason_remains', sig=self.sig(u, kind or 'confirmed'),
+                self.ck(is_empty(self.ref.reasons[u]) if kind else True, 'retried_while_reason_remains', sig=self.sig(u, kind or 'confirmed'),
                         info={'user': u})
         for epoch, u, cnt in self.closed:
             seq = collapse(self.frames(u, epoch))
-            c.check(alternates(seq), 'requests_alternate', sig=self.sig(u), info={'user': u, 'seen': seq, 'at': f'epoch {epoch}'})
-            c.check(cnt >= len(seq) if seq else True, 'no_request_without_transition', sig=self.sig(u),
+            self.ck(alternates(seq), 'requests_alternate', sig=self.sig(u), info={'user': u, 'seen': seq, 'at': f'epoch {epoch}'})
+            self.ck(cnt >= len(seq) if seq else True, 'no_request_without_transition', sig=self.sig(u),
                     info={'user': u, 'seen': seq, 'at': f'epoch {epoch}'})
             self.check_retries(u, epoch)
-        c.check(not env.loop.errors, 'no_loop_errors', info=repr(env.loop.errors[:1]))
+        self.ck(not env.loop.errors, 'no_loop_errors', info=repr(env.loop.errors[:1]))
         c.note('frames', [(fr['kind'], fr['user'], fr['t'], fr['beh'], fr['epoch']) for fr in env.frames])
         c.note('state events', [(e['user'], e['state'].value, e['t']) for e in env.events])
         c.reach('end')
+        for cond, label, sg, info in self.deferred:
+            self.ck(cond, label, sig=sg, info=info)
         env.loop.cleanup()
 
 
@@ -637,20 +657,33 @@ class Scenario:
 # harnesses
 # ------------------------------------------------------------------------------
 
-def h_seq(c, events, timing, max_fail=1, rm_fail=False, slow=False):
-    """events: list of 't<u>' / 'u<u>' (track / untrack for user u) and 'd' (server disconnect);
-    timing: per event 'now' | 'quiet' | 'settle' | 'all' | 'coarse' | 'fine' (see Env.goto)."""
+def h_seq(c, events, timing, max_fail=1, rm_fail=False, slow=False, reasons=('EOF',), tail=False):
+    """events: list of 't<u>' / 'u<u>' (track / untrack for user u) and 'd' (server disconnect + reconnect);
+    timing: per event 'now' | 'quiet' | 'settle' | 'all' | 'coarse' | 'fine' (see Env.goto);
+    reasons: names of the CloseReason members a disconnect may carry (enumerated when several);
+    tail: when everything has come to rest on the new connection every user is tracked again (any
+    reason, fresh symbolic flag; the server confirms) - a request has to reach the new connection."""
     nusers = 1 + max([int(e[1]) for e in events if e[0] in 'tu'] or [0])
     calls = [i for i, ev in enumerate(events) if ev[0] in 'tu']
-    flags = dict(zip(calls, mk_flags(c, [f'flag{i}' for i in calls])))
+    ntail = nusers if tail else 0
+    fl = mk_flags(c, [f'flag{i}' for i in calls] + [f'tailflag{u}' for u in range(ntail)])
+    flags = dict(zip(calls, fl))
     sc = Scenario(c, nusers, max_fail=max_fail, rm_fail=rm_fail, slow=slow)
     for i, ev in enumerate(events):
         sc.env.goto(i, timing[i])
         sc.check_not_ahead(f'before event {i}')
         if ev == 'd':
-            sc.disconnect(i)
+            sc.disconnect(i, reasons)
         else:
             sc.call(i, ev[0], int(ev[1]), flags[i])
+    if tail:
+        ok = sc.env.run_all()
+        c.check(ok, 'activity_settles', info='timers keep being scheduled')
+        sc.env.fails = max(sc.env.fails, sc.env.max_fail)      # no more faults: the server answers and confirms
+        for u in range(nusers):
+            sc.check_not_ahead(f'before tail call {u}')
+            sc.call(len(events) + u, 't', u, fl[len(calls) + u])
+        c.reach('tracked_again')
     sc.finish()
 
 
@@ -777,20 +810,24 @@ META = {
     'data_variables': ['flag<i>: flag argument of call i, 3-bit bit-vector, any non-empty subset of the three reasons',
                        'exists: the `exists` field of each AddUser answer (Bool, the real code branches on it)'],
     'discriminants': ['call sequence (track/untrack, user 0/1, disconnect position) = job parameter',
+                      'close reason of the disconnect: all 7 CloseReason members (job parameter or c.pick on the path)',
                       'loop step / timer instant at which each call or disconnect is injected (fine) or one of now/quiet/settled/all-done (coarse)',
                       'server behaviour per AddUser attempt: answer / silence / write error (answer exists/not exists is symbolic)',
                       'RemoveUser write error (faults jobs)', 'finished/unfinished per transfer and cycle (cycles harness)'],
     'bounds': {
         'quick': {'one_user_all_fine': 'every sequence of 1..3 calls, every call after the first at every loop step / timer instant',
                   'one_user_coarse_prefix': '4 calls: 3 fixed coarse prefixes + last call fine; 5 calls as burst and strictly sequential',
-                  'disconnect': 'one disconnect anywhere in sequences <= 3 (all fine); after a burst of 3 calls (disconnect fine)',
+                  'disconnect': 'one disconnect + reconnect + track-again tail: sequences of 2 all fine x 7 close reasons; sequences of 3: all fine '
+                                'x 1 rotating reason, [now, coarse, fine] x REQUESTED, [now, coarse, coarse] x all 7; after a burst of 3 calls: '
+                                'fine x {REQUESTED, EOF}, idle x all 7',
                   'two_users': '3 calls, second now/all-done, third fine',
                   'failed_attempts': '<= 1 per scenario (2 in faults jobs), then the server confirms',
                   'faults': 'RemoveUser write errors, suspending listener: 2 calls fine, 3 calls coarse+fine',
                   'answer_delay': '0.25 s', 'transfer_cycles': '2 cycles x 3 transfers x 2 users, 2 direct calls'},
         'thorough': {'one_user_all_fine': 'every sequence of 1..4 calls (<= 3 calls with up to 2 failed attempts)',
                      'one_user_coarse_prefix': '5 calls [now, now|settled, coarse, coarse, fine]; 6 calls: 4 fixed prefixes + fine; 5..8 calls burst / sequential',
-                     'disconnect': 'one disconnect anywhere in sequences <= 4, all fine',
+                     'disconnect': 'sequences <= 3 all fine x each of the 7 close reasons; sequences of 4 all fine x 1 rotating reason (+ REQUESTED '
+                                   'when the disconnect is last) and all coarse x all 7; always with the track-again tail',
                      'two_users': '3 calls all fine; 4 calls [now, now|all-done, coarse, fine]',
                      'failed_attempts': '<= 1 (2 for <= 3 calls, 3 in faults jobs), then the server confirms',
                      'faults': 'RemoveUser write errors, suspending listener: 3 calls all fine',
@@ -834,14 +871,38 @@ def jobs(tier):
     for n in (1, 2, 3) if quick else (1, 2, 3, 4):
         for s in _seqs(n):
             out.append(_job('calls', s, ['now'] + [F] * (n - 1), max_fail=1 if quick or n == 4 else 2))
-    # B: one server disconnect anywhere in it
-    for n in (2, 3) if quick else (2, 3, 4):
-        for s in _seqs(n, with_d=True):
-            out.append(_job('disconnect', s, ['now'] + [F] * (n - 1)))
+    # B: one server disconnect (+ reconnect) anywhere in it, for every close reason the connection code can
+    # report; afterwards every user is tracked again on the new connection
+
+    def dis(s, timing, reasons):
+        j = _job('disconnect', s, timing, reasons=reasons, tail=True)
+        j['requires'] += ['tracked_again'] + ['closed_' + r for r in reasons]
+        return j
+    others = [r for r in ALL_REASONS if r != 'REQUESTED']
+    for s in _seqs(2, with_d=True):
+        for r in ALL_REASONS:
+            out.append(dis(s, ['now', F], [r]))
     if quick:
+        # timing and close reason are not multiplied out: every step with one reason (rotating), every reason
+        # (chosen on the path) with coarse timing, REQUESTED additionally with the last event at every step
+        for k, s in enumerate(_seqs(3, with_d=True)):
+            out.append(dis(s, ['now', F, F], [others[k % len(others)]]))
+            out.append(dis(s, ['now', C, F], ['REQUESTED']))
+            out.append(dis(s, ['now', C, C], ALL_REASONS))
         for s in _seqs(4, with_d=True):
             if s[-1] == 'd':
-                out.append(_job('disconnect', s, ['now', 'now', 'now', F]))
+                out.append(dis(s, ['now', 'now', 'now', F], ['REQUESTED', 'EOF']))
+                out.append(dis(s, ['now', 'now', 'now', 'quiet'], ALL_REASONS))
+    else:
+        for s in _seqs(3, with_d=True):
+            for r in ALL_REASONS:
+                out.append(dis(s, ['now', F, F], [r]))
+        for k, s in enumerate(_seqs(4, with_d=True)):
+            r = ALL_REASONS[(k + 2) % len(ALL_REASONS)]          # every step: one reason per sequence, rotating
+            out.append(dis(s, ['now', F, F, F], [r]))
+            if s[-1] == 'd' and r != 'REQUESTED':
+                out.append(dis(s, ['now', F, F, F], ['REQUESTED']))
+            out.append(dis(s, ['now', C, C, C], ALL_REASONS))  # every reason (chosen on the path), coarse timing
     # C: two users
     for s in _seqs(3, nusers=2):
         if quick:
@@ -852,7 +913,7 @@ def jobs(tier):
     # D: longer histories: coarse timing for the prefix, the last call at every loop step
     if quick:
         for s in _seqs(4):
-            for pre in (['now', 'now'], ['all', 'all'], ['settle', 'quiet']):
+            for pre in (['now', 'now'], ['settle', 'quiet']):
                 out.append(_job('history', s, ['now'] + pre + [F]))
     else:
         for s in _seqs(5):
